@@ -5,21 +5,22 @@
 package c11
 
 import (
-	"time"
-	"strings"
 	"bytes"
 	"fmt"
 	"os"
 	"reflect"
 	"runtime"
+	"strings"
 	"sync"
 	"sync/atomic"
 	"testing"
+	"time"
 
 	mocker "github.com/tencent/goom"
 	"github.com/tencent/goom/zverif/corpus"
-	"github.com/tencent/goom/zverif/vkit"
 	refx86 "github.com/tencent/goom/zverif/refx86"
+	"github.com/tencent/goom/zverif/reloc"
+	"github.com/tencent/goom/zverif/vkit"
 	"pgregory.net/rapid"
 )
 
@@ -76,6 +77,88 @@ func resultsFor(fn *corpus.Fn, code int) []reflect.Value {
 }
 
 // steady mocks: installed before the round, hammered by the callers during it
+// Frameless origin placeholders for the frameless leaves Z016 and Z007: leaf closures that never move SP, so that the
+// runtime's frame table of the placeholder (frame size 0 at every pc) agrees with the relocated code at every pc. The
+// generated placeholders of the corpus (corpus.OZ...) have a frame, and goom writes the relocated prologue over a body
+// whose frame table describes other code: open finding origin-placeholder-frame-metadata.
+var leafOZ016 = func(x int) int {
+	x = x*31 + 7
+	x ^= x >> 5
+	x = x*131 + 11
+	x ^= x >> 7
+	x = x*137 + 3
+	x ^= x >> 9
+	x = x*139 + 5
+	x ^= x >> 11
+	return x
+}
+
+var leafOZ007 = func(x float64) float64 {
+	x = x*1.5 + 2
+	x = x*x + 3
+	x = x*2.5 + 4
+	x = x*x + 5
+	x = x*3.5 + 6
+	x = x*x + 7
+	return x
+}
+
+// frameMismatch judges the code goom wrote into an origin placeholder against the runtime's pc -> frame-size table of
+// the placeholder function: before every instruction up to the jump back, the displacement of SP the code has produced
+// must be the frame size the table gives for that pc - it is the table the collector, the stack copier and tracebacks
+// use when a goroutine is interrupted there (asynchronous preemption). judged is false when the table or the code
+// cannot be read.
+func frameMismatch(ph uintptr) (mismatch string, judged bool) {
+	f, ok := img.FuncAt(ph)
+	if !ok || uintptr(f.Entry) != ph {
+		return "", false
+	}
+	tab, ok := img.Im.PCSP(uint64(ph) - img.Slide)
+	if !ok {
+		return "", false
+	}
+	walk, ok := reloc.FrameWalk(vkit.Bytes(ph, int(f.End-f.Entry)))
+	if !ok {
+		return "", false
+	}
+	for _, w := range walk {
+		d, ok := vkit.SPDeltaAt(tab, uint32(w.Off))
+		if !ok || int(d) != w.Delta {
+			return fmt.Sprintf("at %s+%d (%s) the code has moved SP by %d bytes since entry, the runtime's frame table of that function says %d", f.Name, w.Off, w.Inst, w.Delta, d), true
+		}
+	}
+	return "", true
+}
+
+// probeFrameMetadata is the deterministic probe of the open finding origin-placeholder-frame-metadata: the zoo functions in
+// order, each mocked with its generated origin placeholder; the first pair whose frame table disagrees is reported.
+func probeFrameMetadata(s *vkit.Stats) {
+	judgedPairs := 0
+	for _, fn := range corpus.Zoo {
+		b := mocker.Create()
+		pv := guard(func() { b.Func(fn.Fn).Origin(fn.Origin).Apply(fn.MkRepl(&corpus.Rec{})) })
+		mm, judged := "", false
+		if pv == nil {
+			mm, judged = frameMismatch(reflect.ValueOf(fn.Origin).Elem().Pointer())
+		}
+		b.Reset()
+		if !judged {
+			continue
+		}
+		judgedPairs++
+		if mm != "" {
+			s.KnownFinding("origin-placeholder-frame-metadata", fmt.Sprintf("Func(%s).Origin(&O%s).Apply(cb): %s; a goroutine preempted asynchronously "+
+				"at that pc is unwound with the wrong frame size (GC stack scan: 'unexpected return pc' / SIGSEGV)", fn.Name, fn.Name, mm))
+			return
+		}
+	}
+	if judgedPairs == 0 {
+		s.Note("probe origin-placeholder-frame-metadata: no zoo pair could be judged")
+		return
+	}
+	s.ProbeOK("origin-placeholder-frame-metadata")
+}
+
 type steady struct {
 	name  string
 	check func(i int) error // one call + oracle; must not write shared state
@@ -138,18 +221,46 @@ func runRound(ci interface{}, s *vkit.Stats) error {
 		fi, ok := img.FuncAt(e)
 		return ok && !hasStackCheck(vkit.Bytes(e, int(uintptr(fi.End)-e)))
 	}
+	// The placeholder is a frameless leaf too, and the pair is admitted only if the frame table of the placeholder agrees
+	// with the relocated code (otherwise: open finding origin-placeholder-frame-metadata, excluded and counted).
+	var obs []*mocker.Builder
+	newOB := func() *mocker.Builder {
+		b := mocker.Create()
+		obs = append(obs, b)
+		return b
+	}
+	resetOBs := func() {
+		for _, b := range obs {
+			b.Reset()
+		}
+	}
+	defer resetOBs()
+	ob := newOB()
+	originOK := func(ph interface{}) bool {
+		mm, judged := frameMismatch(reflect.ValueOf(ph).Pointer())
+		if !judged || mm != "" {
+			s.Exclude("steady-origin-callers-on-a-placeholder-whose-frame-table-disagrees(known finding)")
+			return false
+		}
+		return true
+	}
 	if frameless(corpus.Z016) {
 		if pv := guard(func() {
-			sb.Func(corpus.Z016).Origin(&corpus.OZ016).Apply(func(x int) int { return corpus.OZ016(x) + 1000 })
+			ob.Func(corpus.Z016).Origin(&leafOZ016).Apply(func(x int) int { return leafOZ016(x) + 1000 })
 		}); pv != nil {
 			return fmt.Errorf("steady origin mock on Z016 panicked: %v", pv)
 		}
-		steadies = append(steadies, steady{"Z016+origin", func(i int) error {
-			if got := corpus.Z016(i); got != i+1000 {
-				return fmt.Errorf("steady Z016 (callback = origin+1000): Z016(%d) = %d", i, got)
-			}
-			return nil
-		}})
+		if !originOK(leafOZ016) {
+			ob.Reset()
+		} else {
+			s.Class("steady-origin-callers/Z016")
+			steadies = append(steadies, steady{"Z016+origin", func(i int) error {
+				if got := corpus.Z016(i); got != i+1000 {
+					return fmt.Errorf("steady Z016 (callback = origin+1000): Z016(%d) = %d", i, got)
+				}
+				return nil
+			}})
+		}
 	}
 	// (3) a conditional stub whose callers pass different arguments: each caller must get the result of its own condition
 	if pv := guard(func() {
@@ -169,9 +280,14 @@ func runRound(ci interface{}, s *vkit.Stats) error {
 		return nil
 	}})
 	if frameless(corpus.Z007) {
+		ob7 := newOB()
 		if pv := guard(func() {
-			sb.Func(corpus.Z007).Origin(&corpus.OZ007).Apply(func(x float64) float64 { return corpus.OZ007(x) + 0.5 })
-		}); pv == nil { // (goom may refuse a prologue; refusals are property C03's business)
+			ob7.Func(corpus.Z007).Origin(&leafOZ007).Apply(func(x float64) float64 { return leafOZ007(x) + 0.5 })
+		}); pv != nil { // (goom may refuse a prologue; refusals are property C03's business)
+		} else if !originOK(leafOZ007) {
+			ob7.Reset()
+		} else {
+			s.Class("steady-origin-callers/Z007")
 			steadies = append(steadies, steady{"Z007+origin", func(i int) error {
 				x := float64(i)
 				if got := corpus.Z007(x); got != x*3.25+1.5+0.5 {
@@ -394,6 +510,7 @@ func runRound(ci interface{}, s *vkit.Stats) error {
 	}
 	// quiescence: everything restored
 	sb.Reset()
+	resetOBs()
 	if bad := vkit.Outside(img.Diff(), placeholderBodies); len(bad) > 0 {
 		return fmt.Errorf("at quiescence (all builders reset) the executable image differs from pristine: %s", img.Describe(bad))
 	}
@@ -421,6 +538,11 @@ func TestVerifC11(t *testing.T) {
 			placeholderBodies = append(placeholderBodies, vkit.Range{Lo: uintptr(f.Entry), Hi: uintptr(f.End)})
 		}
 	}
+	for _, ph := range []interface{}{leafOZ016, leafOZ007} {
+		if f, ok := img.FuncAt(reflect.ValueOf(ph).Pointer()); ok {
+			placeholderBodies = append(placeholderBodies, vkit.Range{Lo: uintptr(f.Entry), Hi: uintptr(f.End)})
+		}
+	}
 	for _, fn := range corpus.Zoo {
 		if fn.Name == "Z016" || fn.Name == "Z007" || fn.Name == "Z003" {
 			continue
@@ -441,6 +563,7 @@ func TestVerifC11(t *testing.T) {
 		Run: runRound}
 	s := p.Main(t, vkit.Scale(40, 600))
 	if !vkit.Replaying() {
+		probeFrameMetadata(s)
 		s.Done()
 	}
 }
